@@ -28,6 +28,7 @@ type c10Case struct {
 	Size    string `json:"size"` // "8x6" or "160x120"
 	CrashAt int    `json:"crash_before_op"`
 	Torn    bool   `json:"torn_write,omitempty"`
+	Crash2  int    `json:"second_kill_before_cleanup_op,omitempty"` // the restarted daemon is killed again inside its start-up clean-up
 }
 
 type c10Env struct {
@@ -76,6 +77,9 @@ func (e *c10Env) runHistory(h string) {
 	case "H1": // start, 3 frames, stop
 		r := newRec(e.conf, e.cam)
 		rec(r, 3, normalStop(r))
+	case "H7": // a recording long enough for the writer's 4 KiB buffer to be flushed several times while recording
+		r := newRec(e.conf, e.cam)
+		rec(r, 120, normalStop(r))
 	case "H2": // two recordings back to back on the same recorder
 		r := newRec(e.conf, e.cam)
 		rec(r, 2, normalStop(r))
@@ -200,6 +204,8 @@ func c10Cam(size string) vcam {
 }
 
 // runC10 executes one case; CrashAt == 0 is the uncrashed run with the observer at every boundary.
+var cleanupOps int // operations of the last (possibly interrupted) clean-up
+
 func runC10(c c10Case) (vs []ev.Violation, nops int) {
 	dir, err := os.MkdirTemp("", "c10-")
 	if err != nil {
@@ -257,9 +263,31 @@ func runC10(c c10Case) (vs []ev.Violation, nops int) {
 			add("C10:discarded-recording-leaves-trace", fmt.Sprintf("after Stop() (connection lost) the directory still holds %v", l))
 		}
 	}
-	// start-up clean-up, exactly as runMain does it
+	// start-up clean-up, exactly as runMain does it - optionally killed itself before its Crash2-th operation,
+	// after which the daemon starts (and cleans up) once more
+	if c.Crash2 > 0 {
+		vos.Reset()
+		vos.ArmCrash(c.Crash2)
+		func() {
+			defer func() {
+				if p := recover(); p != nil {
+					if _, ok := p.(vos.Crash); !ok {
+						panic(p)
+					}
+				}
+			}()
+			deleteTempFiles(e.conf.OutputDir)
+		}()
+		cleanupOps = len(vos.Ops())
+		vos.ArmCrash(0)
+		add(e.checkI1(when + " and an interrupted clean-up"))
+	}
+	vos.Reset()
 	if err := deleteTempFiles(e.conf.OutputDir); err != nil {
 		add("C10:cleanup-error", err.Error())
+	}
+	if c.Crash2 == 0 {
+		cleanupOps = len(vos.Ops())
 	}
 	add(e.checkI1(when + " and clean-up"))
 	add(e.checkI2(when + " and clean-up"))
@@ -282,15 +310,16 @@ func TestVerifC10(t *testing.T) {
 	}
 	r := ev.NewRun("C10", "overlay cmd/thermal-recorder TestVerifC10")
 	r.Rerun = c10Replay
-	hist := []string{"H1", "H2", "H3", "H4", "H4c", "H5", "H6"}
+	hist := []string{"H1", "H2", "H3", "H4", "H4c", "H5", "H6", "H7"}
 	sizes := []string{"8x6"}
 	if r.Thorough() {
 		sizes = []string{"8x6", "160x120"}
 	}
-	r.Rule = "real CPTVFileRecorder + real go-cptv writer on a real temp directory, file-system calls numbered by the os->vos import rewrite: histories H1 (start, 3 frames, stop), H2 (two recordings), H3 (start, frames, Stop() on connection loss), H4/H4c (a start that fails while the header is written, followed by StopRecording and a normal recording; motion and continuous recorder), H5 (motion + test recording interleaved in one directory), H6 (motion + continuous recorder in constant-recordings/); one uncrashed run per history with a concurrent-observer check (every *.cptv decodes header-to-EOF and equals what was recorded) at EVERY operation boundary, then one run per crash point k=1..N (kill before operation k) and per torn write (first half of write k reaches the file), each followed by the real deleteTempFiles and the check that only complete recordings remain. Non-trivial = crashed run."
+	r.Rule = "real CPTVFileRecorder + real go-cptv writer on a real temp directory, file-system calls numbered by the os->vos import rewrite: histories H1 (start, 3 frames, stop), H2 (two recordings), H3 (start, frames, Stop() on connection loss), H4/H4c (a start that fails while the header is written, followed by StopRecording and a normal recording; motion and continuous recorder), H5 (motion + test recording interleaved in one directory), H7 (120 frames: several buffer flushes mid-recording), H6 (motion + continuous recorder in constant-recordings/); one uncrashed run per history with a concurrent-observer check (every *.cptv decodes header-to-EOF and equals what was recorded) at EVERY operation boundary, then one run per crash point k=1..N (kill before operation k) and per torn write (first half of write k reaches the file), each followed by the real deleteTempFiles and the check that only complete recordings remain; plus, for every crash point, a second kill at every operation of that clean-up followed by a further start-up. Non-trivial = crashed run."
 	r.Assumptions = []string{"process-kill semantics: completed operations persist, user-space buffers are lost (power-loss durability is not claimed by C10)", "recording names come from a harness-owned clock advancing 1 ms per start"}
 	w := r.Serial()
 	points := map[string]int{}
+	doubleKills := 0
 	for _, h := range hist {
 		for _, sz := range sizes {
 			vs, n := runC10(c10Case{History: h, Size: sz})
@@ -307,6 +336,19 @@ func TestVerifC10(t *testing.T) {
 				for _, torn := range []bool{false, true} {
 					c := c10Case{History: h, Size: sz, CrashAt: k, Torn: torn}
 					vs, _ := runC10(c)
+					// the restarted daemon may itself be killed during the clean-up: every point of it
+					for k2 := 1; k2 <= cleanupOps && !torn; k2++ {
+						c2 := c
+						c2.Crash2 = k2
+						vs2, _ := runC10(c2)
+						w.Evaluations++
+						w.Nontrivial++
+						w.States++
+						doubleKills++
+						for _, v := range vs2 {
+							w.Violate(v.Sig, v.Msg, v.Case, k+k2)
+						}
+					}
 					w.Evaluations++
 					w.Nontrivial++
 					w.States++
@@ -325,5 +367,6 @@ func TestVerifC10(t *testing.T) {
 		}
 	}
 	r.Bounds["crash_points_per_history"] = points
+	r.Bounds["double_kill_cases"] = doubleKills
 	finish(t, r)
 }
